@@ -1,7 +1,7 @@
 """C03 - committed history is exactly a prefix of the sequential history."""
 from props import runlib
 
-THEOREMS = ["RootSim.LP.fossil_inv", "RootSim.C05LP.run_exact", "RootSim.C01.lp_state_is_fold", "RootSim.C01.matchStraggler_spec"]
+THEOREMS = ["RootSim.C01.history_stays_sorted", "RootSim.LP.fossil_inv", "RootSim.C05LP.run_exact", "RootSim.C01.lp_state_is_fold", "RootSim.C01.matchStraggler_spec"]
 
 
 def run(ctx):
@@ -10,7 +10,7 @@ def run(ctx):
                     "of the thread, observed through read-only hooks",
                     "composition step (E) covered by sampled runs, see C01"]
     ctx.assumptions += ["valid-model contract V1-V5"]
-    runlib.lean_part(ctx, "RootSim.Props.C01", THEOREMS)
+    runlib.lean_part(ctx, "RootSim.Props.C01Sorted", THEOREMS)
     # runs stopped by a termination time (final state speculative) as well as predicate-terminated ones
     agg = runlib.run_matrix(ctx, "committed stream per LP vs Lean sequential per-LP sequence at every fossil collection and at shutdown",
                             36, 900, oracle_keys=("s_below_gvt",), threads=(1, 2, 3, 4), ckpts=(1, 2, 3, 7, 0), tterm=True,
